@@ -672,6 +672,9 @@ class AgainTask (Task):
 
     try:
       nxt = g.send(None)
+    except StopIteration:
+      # Subtask returned without yielding anything: no result, not an error
+      pass
     except Exception:
       parent.task.re = sys.exc_info()
     else:
